@@ -45,10 +45,34 @@ def worker(arg):
         # in the lookup directory is referred to by a target, so it is part of the result): the version rules relate
         # direct and transitive definitions alike, whichever of them is the newer one
         placements += ["oldest-in-lookup", "newest-in-lookup"]
+    # the rules speak of the ORDER of minor versions: the same set renumbered order-preservingly with numbers of one and of
+    # two digits (2 < 9 < 10 < 11 numerically, not as text)
+    if len({d["min"] for d in defs}) >= 2 and core.pick(block, "renumber", 2) == 0:
+        placements.append("renumbered")
+    # definitions of different names in two root namespaces, read together through read_files
+    if len({d["name"] for d in defs}) == len(defs) >= 2 and core.pick(block, "tworoots", 2) == 0:
+        placements.append("two-roots")
     for pl in placements:
         fs = files_of(defs)
         lookups = []
-        if pl != "target":
+        if pl == "renumbered":
+            fs = files_of([dict(d_, min=[0, 2, 9, 10, 11, 12][d_["min"]]) for d_ in defs])
+        if pl == "two-roots":
+            fs = files_of(defs[:1])
+            fs.update(files_of(defs[1:], root="oth"))
+            with dsdlio.Tree(fs, "c11") as tr:
+                try:
+                    direct, _tr = pydsdl.read_files([tr.path(k) for k in sorted(fs)], [tr.path("vnd"), tr.path("oth")],
+                                                    allow_unregulated_fixed_port_id=True)
+                    status, res = "ok", direct
+                except Exception as ex:      # noqa - the class is the observation
+                    status, res = "err", ex
+            if status == "err" and not isinstance(res, pydsdl.InvalidDefinitionError):
+                diff.append(("exception other than InvalidDefinitionError", pl, type(res).__name__, str(res)[:200]))
+            elif (status == "ok") != consistent:
+                diff.append(("accepted (%s)" % pl, status == "ok", consistent, str(res)[:200] if status == "err" else None))
+            continue
+        if pl in ("oldest-in-lookup", "newest-in-lookup"):
             # the type is renamed so that other direct definitions sort before AND after it: in the list of all types
             # (transitive, then direct) its versions are then not neighbours
             ren = [dict(d_, name="M" + d_["name"]) for d_ in defs]
@@ -58,7 +82,7 @@ def worker(arg):
             fs["t/vnd/Zref.1.0.dsdl"] = "vnd.%s.%d.%d x\n@sealed\n" % (moved["name"], moved["maj"], moved["min"])
             fs["t/vnd/Aref.1.0.dsdl"] = "vnd.%s.%d.%d x\n@sealed\n" % (moved["name"], moved["maj"], moved["min"])
         with dsdlio.Tree(fs, "c11") as tr:
-            if pl == "target":
+            if pl in ("target", "renumbered"):
                 status, res, _ = dsdlio.read_ns(tr.path("vnd"), allow_unregulated=True)
             else:
                 status, res, _ = dsdlio.read_ns(tr.path("t/vnd"), [tr.path("l/vnd")], allow_unregulated=True)
